@@ -583,13 +583,15 @@ class Union(Structure, metaclass=UnionMetaType):
         object.__setattr__(self, "_sizes", sizes)
 
     def _proxify(self) -> None:
-        def _proxy_structure(value: Structure) -> None:
+        def _proxy_structure(value: Structure, attr: str | None = None) -> None:
             for field in value.__class__.__fields__:
                 if issubclass(field.type, Structure):
+                    # Nested structures have to rebuild the union through the top-level union member they are part of
+                    union_attr = attr or field._name
                     nested_value = getattr(value, field._name)
-                    proxy = UnionProxy(self, field._name, nested_value)
+                    proxy = UnionProxy(self, union_attr, nested_value)
                     object.__setattr__(value, field._name, proxy)
-                    _proxy_structure(nested_value)
+                    _proxy_structure(nested_value, union_attr)
 
         _proxy_structure(self)
 
